@@ -193,6 +193,11 @@ func (d *testIface) VarlinkDispatch(ctx context.Context, c varlink.Call, methodn
 	}
 	if err := c.GetParameters(&p); err == nil && p.Cid != nil {
 		cid = *p.Cid
+		// reading them again gives the same again
+		var again json.RawMessage
+		if err2 := c.GetParameters(&again); err2 != nil || string(again) != rawp {
+			rawp = "!second GetParameters: " + errStr(err2) + " " + string(again)
+		}
 	}
 	sim.Rec("h.enter", mustJSON(map[string]interface{}{"iface": d.spec.Name, "method": methodname, "cid": cid,
 		"more": c.WantsMore(), "oneway": c.IsOneway(), "upgrade": c.WantsUpgrade(), "params": rawp}))
